@@ -147,12 +147,18 @@ def run(ctx):
             if not thorough and len(orders) > 6:
                 orders = rng.sample(orders, 6)
             for order in orders:
-                for placement in ("flat", "helper", "nested_keep"):
+                for placement in ("flat", "helper", "nested_keep", "inherited_method"):
                     src = HEAD
                     for i in range(len(order)):
                         src += "def leaf%d():\n    log('leaf%d')\n    return 'v%d'\n\n" % (i, i, i)
                     if placement == "flat":
                         src += "def top():\n    log('top')\n" + "".join("    dds.keep(%r, leaf%d)\n" % (pstr(p), i) for i, p in enumerate(order)) + "    return 't'\n"
+                    elif placement == "inherited_method":
+                        # the other keeps sit in a method that the class used inherits from its base class
+                        src += "class Base(object):\n    def m(self):\n        log('Base.m')\n" + "".join(
+                            "        dds.keep(%r, leaf%d)\n" % (pstr(p), i) for i, p in list(enumerate(order))[1:]) + "        return 'b'\n\n"
+                        src += "class Derived(Base):\n    def other(self):\n        return 1\n\n"
+                        src += "def top():\n    log('top')\n    dds.keep(%r, leaf0)\n    Derived().m()\n    return 't'\n" % pstr(order[0])
                     elif placement == "helper":
                         src += "def helper():\n    log('helper')\n" + "".join("    dds.keep(%r, leaf%d)\n" % (pstr(p), i) for i, p in list(enumerate(order))[1:]) + "    return 'h'\n\n"
                         src += "def top():\n    log('top')\n    dds.keep(%r, leaf0)\n    helper()\n    return 't'\n" % pstr(order[0])
